@@ -359,6 +359,12 @@ class PackagesParser(IndexFileParser):
                         use_by_hash=False,
                     )
 
+                if not self._hashes:
+                    # Size must be known even if stanza has no known hashsums
+                    download_file.add_compression_variant(
+                        path=self._file_path, size=self._size
+                    )
+
                 self._pool_files[self._file_path] = download_file
 
                 self._reset_block_parser()
